@@ -610,10 +610,13 @@ class AnimalSpecies:
             # male milk animals are not considered milk anaimls and need to be moved
             # over to meat
             self.birth_ratio = 1
-            self.births_animals_month_baseline = (
+            # births cannot be negative: when the dairy herd transfers in more animals than
+            # this herd loses, no births are needed to keep it stationary
+            self.births_animals_month_baseline = max(
+                0,
                 self.other_animal_death_basline_head_monthly
                 + self.initial_slaughter
-                - transfer_births_or_head
+                - transfer_births_or_head,
             )
             # if a milk animal, this is JUST the milk animals born (meat transfer accounted for in pregnancy attribute)
 
